@@ -234,7 +234,8 @@ B('C04.swallow-not-enough-data', ['C04'], [(P + 'common/parse.py', "        exce
 B('C14.runtime-template', ['C14'], [(P + 'common/base.py', "            result += '{indent}* {name}'.format(indent=indent, name=name_dict[name])", "            result += (indent + '* ' + name_dict[name] + '{}').format('')")], mention=['C14.R5'])
 B('C03.nested-length-dropped', ['C03'], [(P + 'common/parse.py', "        parsed_object, value_length = variant.parse(self._parsable[self._parsed_length:])\n\n        self._parsed_values[name] = parsed_object\n        self._parsed_length += value_length",
                                           "        parsed_object, value_length = variant.parse(self._parsable[self._parsed_length:])\n\n        self._parsed_values[name] = parsed_object\n        self._parsed_length += value_length\n\n    def parse_variant_exact(self, name, parsable_class):\n        self._parsed_values[name] = parsable_class.parse_immutable(self._parsable[self._parsed_length:])[0]\n        self._parsed_length = len(self._parsable)")], mention=['C03.R6'])
-B('C02.unbounded-epoch', ['C02'], [(P + 'common/parse.py', "datetime.datetime.fromtimestamp(0x00000000ffffffff & value, dateutil.tz.UTC)", "datetime.datetime.fromtimestamp(value, dateutil.tz.UTC)")])
+B('C02.unbounded-epoch', ['C02'], [(P + 'common/parse.py', "            try:\n                value = datetime.datetime.fromtimestamp(value, dateutil.tz.UTC)\n            except (OverflowError, ValueError, OSError) as e:\n                six.raise_from(InvalidValue(value, type(self), name), e)\n", "            value = datetime.datetime.fromtimestamp(value, dateutil.tz.UTC)\n")])
+B('C02.epoch-handler-too-narrow', ['C02'], [(P + 'common/parse.py', "            except (OverflowError, ValueError, OSError) as e:\n                six.raise_from(InvalidValue(value, type(self), name), e)\n", "            except ValueError as e:\n                six.raise_from(InvalidValue(value, type(self), name), e)\n")])
 B('C02.ldap-lazy-decode', ['C02'], [(P + 'tls/ldap.py', "            # ensure recursive parsing\n            message.native  # pylint: disable=pointless-statement\n", "")], mention=['eager-decode'])
 B('C02.table-column-deref', ['C02'], [(P + 'dnsrec/record.py', "        if not isinstance(dnssec_algorithm.value.algorithm, Signature):\n            raise InvalidValue(dnssec_algorithm.value.algorithm, cls, 'algorithm_type')\n\n", "")], mention=['C02.R5'])
 B('C10.lenient-alpn', ['C10'], [(P + 'common/base.py', "code = six.ensure_text(code_bytes, cls.get_encoding())", "code = six.ensure_text(code_bytes, cls.get_encoding(), 'ignore')")], mention=['C10.R7'])
@@ -259,7 +260,7 @@ N('benign.rsa-exponent-branch-order', [(P + 'dnsrec/record.py', "        if expo
                                          "        if exponent_length <= 0xff:\n            key_composer.compose_numeric(exponent_length, 1)\n        else:\n            key_composer.compose_numeric(0, 1)\n            key_composer.compose_numeric(exponent_length, 2)")])
 N('benign.pair-composer-restructured', [(P + 'common/field.py', "        composer.compose_string(self.name)\n        if self.value is not None:\n            composer.compose_separator(self.get_separator())\n            if self.quoted:\n                composer.compose_separator('\"')\n            composer.compose_string(self.value)\n            if self.quoted:\n                composer.compose_separator('\"')\n",
                                           "        composer.compose_string(self.name)\n        if self.value is None:\n            return composer.composed\n\n        quote = '\"' if self.quoted else ''\n        composer.compose_separator(self.get_separator())\n        composer.compose_string(quote + self.value + quote)\n")])
-N('benign.epoch-mask-operand-order', [(P + 'common/parse.py', "datetime.datetime.fromtimestamp(0x00000000ffffffff & value, dateutil.tz.UTC)", "datetime.datetime.fromtimestamp(value & 0xffffffff, dateutil.tz.UTC)")])
+N('benign.epoch-handler-order', [(P + 'common/parse.py', "            except (OverflowError, ValueError, OSError) as e:\n                six.raise_from(InvalidValue(value, type(self), name), e)\n", "            except (OSError, OverflowError, ValueError) as error:\n                six.raise_from(InvalidValue(value, type(self), name), error)\n")])
 N('benign.reraise-explicit', [(P + 'common/parse.py', "        except NotEnoughData:\n            self._parsed_length -= parsed_length\n            raise", "        except NotEnoughData as e:\n            self._parsed_length -= parsed_length\n            raise e")])
 
 N('benign.ja3-rewritten', [(P + 'tls/subprotocol.py', '        extension_types = []\n        named_curves = []\n        ec_point_formats = []\n        for extension in self.extensions:\n            if (not isinstance(extension.extension_type, TlsInvalidTypeTwoByte) or\n                    extension.extension_type.value.value_type != TlsInvalidType.GREASE):\n                extension_types.append(str(extension.extension_type.value.code))\n\n            if extension.extension_type == TlsExtensionType.SUPPORTED_GROUPS:\n                named_curves = [\n                    str(named_curve.value.code)\n                    for named_curve in extension.elliptic_curves\n                    if (not isinstance(named_curve, TlsInvalidTypeTwoByte) or\n                        named_curve.value.value_type != TlsInvalidType.GREASE)\n                ]\n            elif extension.extension_type == TlsExtensionType.EC_POINT_FORMATS:\n                ec_point_formats = [\n                    str(point_format.value.code)\n                    for point_format in extension.point_formats\n                    if (not isinstance(point_format, TlsInvalidTypeOneByte) or\n                        point_format.value.value_type != TlsInvalidType.GREASE)\n                ]\n\n', '        extension_types = [\n            str(extension.extension_type.value.code)\n            for extension in self.extensions\n            if not (isinstance(extension.extension_type, TlsInvalidTypeTwoByte) and\n                    extension.extension_type.value.value_type == TlsInvalidType.GREASE)\n        ]\n        named_curves = []\n        ec_point_formats = []\n        try:\n            groups = self.extensions.get_item_by_type(TlsExtensionType.SUPPORTED_GROUPS)\n        except KeyError:\n            pass\n        else:\n            named_curves = [\n                str(named_curve.value.code)\n                for named_curve in groups.elliptic_curves\n                if (not isinstance(named_curve, TlsInvalidTypeTwoByte) or\n                    named_curve.value.value_type != TlsInvalidType.GREASE)\n            ]\n        try:\n            formats = self.extensions.get_item_by_type(TlsExtensionType.EC_POINT_FORMATS)\n        except KeyError:\n            pass\n        else:\n            ec_point_formats = [\n                str(point_format.value.code)\n                for point_format in formats.point_formats\n                if (not isinstance(point_format, TlsInvalidTypeOneByte) or\n                    point_format.value.value_type != TlsInvalidType.GREASE)\n            ]\n\n')])
